@@ -62,6 +62,12 @@ CLAIMED = {
  "C16": ("panic classification with per-class safety checks + reflect-kind abstract interpretation (dominating kind tests evaluated over all kinds, constructors, call-site propagation) + type-tie rules for Set/Convert/Append/SetMapIndex + index provenance + loop progress (go/ssa)",
          "Decides a guard discipline on the operations of the repository's own code that can panic or spin: all 19 panic statements are classified and their class condition checked; every reflect IsNil/Elem receiver is restricted to the kinds for which the call is defined; every reflect Set/Convert/Append/SetMapIndex in the parsing/transformation packages and the flag callbacks is tied to its destination type by a dominating test or by construction; string/slice indexing in the parsers and case converters has bounded provenance; every non-range loop has a recognised progress argument. 23 of ~160 sites are accepted through a reviewed idiom table (listed in the evidence as trivial obligations with their reasons).",
          "Not a proof of totality: third-party parsers are trusted; stack depth and reflect misuse outside the listed operations are not covered; idiom-table entries are reviewed by hand, not derived."),
+ "C17": ("path (must-pass-through) and dominance rules over the watch loop's select arms and type switch (go/ssa)",
+         "Decides necessary mechanisms of convergence that hold on every path of the watch loop: every wake-up that does not end the loop reaches the re-read before the next wait (only the file-event arm may skip it, only via its name filter); checksum recorded only after a successful decode and identical content mapped to the unchanged marker; existence decided by os.IsNotExist of the read error; after reading an existing file the symlink is re-resolved and the watches repaired (add before remove) before anything is reported; total dispatch (new value / ignore unchanged / report every other error); deferred Close/Done/Stop, return on context end, WG.Add before go.",
+         "Not decided: convergence itself (liveness over real filesystem histories and timings). Trusted: fsnotify, the OS. Not armed: closing the watcher on Watch's error returns (observation in DESIGN.md)."),
+ "C19": ("sibling agreement of matched encoder/decoder pairs (constants, alphabet, widths) + complete-scan shape of the initialism extractor (go/ssa)",
+         "Decides only writer/reader agreement: each separator-based encoder joins with the rune its decoder splits on; no decoder rejects a digit inside a word and all reject a leading digit; every word a decoder emits is lower-cased (or validated lower-case); word starts are exactly past the separator's width; the initialism table holds non-empty upper-case constants and is scanned completely on every pass.",
+         "NOT decided: Decode(Encode(ws)) == ws and the exact word splitting of Go identifiers - laws over runtime strings (the pinned tree is in fact wrong for UID, HTTPS, UUIDUTF8; recorded in DESIGN.md as outside static reach). Boundary-predicate arithmetic (e.g. < vs <= in firstCharAfterInitialism) is not checked."),
 }
 
 NOT_YET = {}
